@@ -80,7 +80,12 @@ impl DataPdu {
     /// client-to-server data PDUs that are legal at any time in an active session and that none of the properties
     /// speaks about: Refresh Rect (0x21), Suppress Output (0x23), Shutdown Request (0x24), Persistent Key List (0x2b)
     pub fn is_unrelated_legal(&self) -> bool {
-        matches!(self, DataPdu::Other { typ2, .. } if [0x21u8, 0x23, 0x24, 0x2b].contains(typ2))
+        match self {
+            DataPdu::Other { typ2, .. } => [0x21u8, 0x23, 0x24, 0x2b].contains(typ2),
+            // an input PDU made of TS_SYNC_EVENTs only (toggle-key state, sent by clients when a session becomes active)
+            DataPdu::Input { events } => !events.is_empty() && events.iter().all(|(_, e)| matches!(e, InputEvent::Other { typ, .. } if *typ == 0)),
+            _ => false,
+        }
     }
 }
 
@@ -191,7 +196,7 @@ pub fn decode_frame(frame: &[u8], expect_info: bool) -> PResult<ClientMsg> {
             // optional routing token / cookie terminated by CRLF
             let rest = &frame[r.pos..];
             let mut off = 0;
-            if rest.len() > 8 || (!rest.is_empty() && rest.len() != 8) {
+            if (rest.len() > 8 && rest[0] != 1) || (!rest.is_empty() && rest.len() < 8) {
                 if let Some(p) = rest.windows(2).position(|w| w == b"\r\n") {
                     off = p + 2;
                 }
@@ -210,6 +215,26 @@ pub fn decode_frame(frame: &[u8], expect_info: bool) -> PResult<ClientMsg> {
             }
             if l != 8 {
                 return Err("x224/negreq/length".into());
+            }
+            if flags & !0x0b != 0 {
+                return Err("x224/negreq/flags/undefined-bits".into());
+            }
+            if flags & 0x08 != 0 {
+                // RDP_NEG_CORRELATION_INFO (MS-RDPBCGR 2.2.1.1.2)
+                let ct = n.u8("correlation.type")?;
+                let cf = n.u8("correlation.flags")?;
+                let cl = n.u16le("correlation.length")?;
+                let id = n.take(16, "correlation.id")?;
+                let reserved = n.take(16, "correlation.reserved")?;
+                if ct != 6 || cf != 0 || cl != 0x24 {
+                    return Err("x224/correlation/header".into());
+                }
+                if id[0] == 0 || id[0] == 0xf4 || id.iter().any(|b| *b == 0x0d) {
+                    return Err("x224/correlation/id".into());
+                }
+                if reserved.iter().any(|b| *b != 0) {
+                    return Err("x224/correlation/reserved".into());
+                }
             }
             n.end("tail")?;
             Ok(ClientMsg::ConnectionRequest { flags, protocols, has_neg: true })
